@@ -9,7 +9,13 @@
 static long long offset_s = 0;
 static int (*real_clock_gettime)(clockid_t, struct timespec *) = 0;
 
-void masscanned_verif_clock_advance(long long secs) { offset_s += secs; }
+/* LLONG_MIN: back to the real clocks (the driver does this at every RESET, i.e. between two histories) */
+void masscanned_verif_clock_advance(long long secs) {
+    if (secs == (-9223372036854775807LL - 1))
+        offset_s = 0;
+    else
+        offset_s += secs;
+}
 
 int clock_gettime(clockid_t id, struct timespec *ts) {
     if (!real_clock_gettime)
